@@ -262,6 +262,21 @@ MUTANTS = [
  ("c12-force-complete-without-sunset", M+"instructions/marginfi_group/configure_bank_lite.rs",
   "    if bank.get_flag(TOKENLESS_REPAYMENTS_ALLOWED) {\n        bank.update_flag(true, TOKENLESS_REPAYMENTS_COMPLETE);\n    }",
   "    bank.update_flag(true, TOKENLESS_REPAYMENTS_COMPLETE);", ["C12"]),
+ # --- reconstructions of three round-8 batch-2 seeded changes whose artefacts were lost before they were saved
+ # (multi-edit mutants: the "file" is a list of (file, old, new) triples)
+ ("r8-c10-deleverage-bracket-lost-has-one-group", [
+   (M+"instructions/marginfi_account/liquidate_start.rs",
+    "        has_one = liquidation_record,\n        has_one = group,\n        constraint = {\n            let acc = marginfi_account.load()?;\n            !acc.get_flag(ACCOUNT_IN_RECEIVERSHIP)",
+    "        has_one = liquidation_record,\n        constraint = {\n            let acc = marginfi_account.load()?;\n            !acc.get_flag(ACCOUNT_IN_RECEIVERSHIP)"),
+   (M+"instructions/marginfi_account/liquidate_end.rs",
+    "        has_one = liquidation_record,\n        has_one = group,\n",
+    "        has_one = liquidation_record,\n")], None, None, ["C10", "C08", "C12"]),
+ ("r8-c16-legacy-transfer-guard-checks-migrated-from", M+"instructions/marginfi_account/transfer_account.rs",
+  "    check_eq!(\n        old_account.migrated_to,\n        Pubkey::default(),\n        MarginfiError::AccountAlreadyMigrated\n    );\n\n",
+  "    check_eq!(\n        old_account.migrated_from,\n        Pubkey::default(),\n        MarginfiError::AccountAlreadyMigrated\n    );\n\n", ["C16"], "first"),
+ ("r8-c12-end-deleverage-skips-health-comparison-when-debt-free", M+"instructions/marginfi_account/liquidate_end.rs",
+  "    if pre_health > post_health {",
+  "    if pre_health > post_health && !(ignore_healthy && _post_liabs == I80F48::ZERO) {", ["C12", "C10"]),
 ]
 
 def sh(cmd, **kw):
@@ -277,17 +292,24 @@ def main():
     head = sh("git -C /repo rev-parse HEAD").stdout.strip()
     sh(f"git -C {root}/repo checkout -q --detach {head}")
     os.makedirs("/verif/sensitivity", exist_ok=True)
-    for mid, f, old, new, checks in MUTANTS:
+    for entry in MUTANTS:
+        mid, f, old, new, checks = entry[:5]
+        first_only = len(entry) > 5 and entry[5] == "first"
         if want and mid not in want:
             continue
         if not checks:
             continue
         sh(f"git -C {root}/repo checkout -- .")
-        p = f"{root}/repo/{f}"
-        s = open(p).read()
-        if s.count(old) != 1:
-            print(f"{mid}: PATTERN NOT FOUND ({s.count(old)} matches)"); continue
-        open(p, "w").write(s.replace(old, new))
+        edits = f if isinstance(f, list) else [(f, old, new)]
+        bad = False
+        for (ff, oo, nn) in edits:
+            p = f"{root}/repo/{ff}"
+            s = open(p).read()
+            if s.count(oo) != 1 and not (first_only and s.count(oo) >= 1):
+                print(f"{mid}: PATTERN NOT FOUND in {ff} ({s.count(oo)} matches)"); bad = True; break
+            open(p, "w").write(s.replace(oo, nn, 1))
+        if bad:
+            continue
         t0 = time.time()
         env = dict(os.environ, KEEP="1")
         out = subprocess.run(["/verif/tools/mutrun.sh", name] + checks, capture_output=True, text=True, env=env).stdout
